@@ -109,7 +109,7 @@ func genForced(ctx *common.Ctx) []implJob {
 			pre = "(channel-push c1 3) "
 		}
 		if r.Chance(35) {
-			post = " (channel-push c1 4)" // the exit is not the last form: slip carries on with the body (C07); the mutex must be free all the same
+			post = " (channel-push c1 4)" // the exit is not the last form: it leaves all the same, the mutex must be free
 		}
 		lock := fmt.Sprintf("(with-mutex-lock m0 %s%s%s)", pre, fmt.Sprintf(in, ex.exit), post)
 		form := ex.open + " " + fmt.Sprintf(o, lock) + ex.close
